@@ -22,7 +22,8 @@ from harness import lib_prefetch_values as lv
 
 PID = 'C15'
 TITLE = 'The prefetching generator protocol delivers the generator faithfully'
-LEAN_MODULES = ['MlModel.Properties.C15', 'MlModel.Properties.C15Multi', 'MlModel.Properties.C15Shutdown', 'MlModel.Witness.C15']
+LEAN_MODULES = ['MlModel.Properties.C15', 'MlModel.Properties.C15Multi', 'MlModel.Properties.C15Shutdown',
+                'MlModel.Properties.C15Values', 'MlModel.Witness.C15', 'MlModel.Witness.C15Values']
 TRUSTED = [
     'scheduler shim (harness/sched/shim.py) implements CPython Lock/RLock/Condition(FIFO notify, no spurious wake-up)/'
     'queue.Queue/Thread.start+join semantics; one atomic step = one synchronisation operation, the thread-local code after it '
@@ -32,7 +33,9 @@ TRUSTED = [
     'a call to a stopped server fails with a deadline status at once; arguments/results pass through the repo\'s own pickler',
     'the 60 s heartbeat time-out of run_until_shutdown is never taken (it only re-runs the statistics logging)',
 ]
-ASSUMPTIONS = ['C15_faithful / C15_failure / C15_no_deadlock / C15_variant / C15_terminates: one client whose requests are sequential '
+ASSUMPTIONS = ['value level (C15_failure_any_exception, C15_faithful_any_return): the generator\'s ELEMENTS are not Exception instances '
+               '(open finding C15-F-inband-exception otherwise); exception classes do not override __eq__ / __bool__; pickling preserves class and args',
+               'C15_faithful / C15_failure / C15_no_deadlock / C15_variant / C15_terminates: one client whose requests are sequential '
                '(it awaits every reply), nobody else talks to the server (no shutdown request: the server thread legitimately stays parked in run_until_shutdown)',
                'IteratorQueue of the server: no time-out configured, ignore_error=False (the constructor defaults)']
 PROVED_LIVENESS = (
@@ -58,6 +61,14 @@ RULE = ('one-client cases: generator length 0..6 x failure position (none or any
         'client loop / shutdown already requested) and the check exits 2 if one of these arms was not exercised; '
         'schedules: seeded uniform-random and PCT-style priorities chosen on the REAL code, replayed choice by choice on the Lean LTS '
         'comparing every executed operation label, the enabled thread set before every step and all outcomes; '
+        'WINDOW schedules (lib_prefetch.hold_chooser): one request (init_generator healthy / failing / of a client loop; next_batch; '
+        'stop_prefetch; shutdown) is taken to the lock acquisition that follows its unlocked look at a flag / attribute and held there while '
+        'every other thread (shutdown + the server thread\'s whole callback, re-initialisation, stop, client loop) runs until nothing else can, '
+        'x what precedes it (nothing / generator installed / partly consumed / exhausted / failed) x prefetch; the windows a run went through '
+        'are classified from the ORDER of operations in its trace and four of them are enforced (exit 2 if not exercised); '
+        'VALUE level (stage "values", real OS threads, Model/PrefetchClient.lean): every exception class / constructed exception / compared '
+        'constant that the functions under the property name is read off the working tree with ast at run time and used as the generator\'s '
+        'failure, as one of its elements and as its return value x batch 1,2,3 x 0/3 preceding elements (every (value, role) enforced); '
         'non-trivial = threads took turns at least 10 times; plus an end-to-end stage: the real client loop against the real server '
         'on real OS threads in the fake\'s threaded and inline modes')
 
